@@ -4,6 +4,12 @@ import json, subprocess
 
 CHECKS = {
  # id: (level, technique, level text, level note, design ref)
+ "C01": ("exploration", "runtime monitoring: real handlers in a deterministic network simulator, every returned signature judged by independent ECDSA/Schnorr/BIP-340 verifiers",
+         "Seeded exploration of all six signing paths over (n,t) lattices, all/sampled signer subsets, digest classes, fresh/refreshed/derived material and adversarial delivery orders; oracle = independent verifier + agreement + completion at quiescence.",
+         "Trusts verif/ref; blake3 shared with the library for the library-defined FROST challenge; CMP primes from the pool (hook H1).", "5/C01"),
+ "C02": ("exploration", "runtime monitoring: real key generations in the simulator, consistent-key-material oracle with reference Lagrange over every (t+1)-subset",
+         "Seeded exploration over (protocol, n, t, identifier alphabet, scheduler); the oracle compares tables across parties, own share vs own entry, and reconstructs from every enumerated (t+1)-subset of secrets and of table entries; a t-subset must not reconstruct.",
+         "Trusts verif/ref Lagrange and secp256k1; CMP primes from the pool (hook H1).", "5/C02"),
  "C16": ("exploration", "differential runtime monitoring against independent big-integer ECDSA / BIP-340 / recovery references",
          "Seeded differential exploration: every stand-alone primitive is run on valid signatures and a lattice of single-field perturbations and its verdict compared with an independent reference; held on what was observed.",
          "Trusts verif/ref (math/big, crypto/sha256), itself checked against BIP-340 vectors and a BIP-32 vector at start-up.", "5/C16"),
